@@ -321,6 +321,14 @@ func (s Server) Serve(c context.Context, conn network.Conn) (err error) {
 
 		// A declined 'Expect: 100-continue' request leaves its body (if the client sends it anyway) unread:
 		// nothing that follows on this connection can be told apart from that body.
+		// The stream built over the connection for this request. The handler may detach it from the
+		// request without draining it (Body/BodyWriteTo/SwapBody that fail half way, SetBody, ResetBody,
+		// SwapRequestBody): it is this stream that must be skipped before the next request is read.
+		var reqBodyStream io.Reader
+		if ctx.Request.IsBodyStream() {
+			reqBodyStream = ctx.Request.BodyStream()
+		}
+
 		connectionClose = s.DisableKeepalive || ctx.Request.Header.ConnectionClose() || !continueReadingRequest
 		isHTTP11 = ctx.Request.Header.IsHTTP11()
 
@@ -416,8 +424,8 @@ func (s Server) Serve(c context.Context, conn network.Conn) (err error) {
 		}
 
 		// Release request body stream
-		if ctx.Request.IsBodyStream() {
-			err = ext.ReleaseBodyStream(ctx.RequestBodyStream())
+		if reqBodyStream != nil {
+			err = ext.ReleaseBodyStream(reqBodyStream)
 			if err != nil {
 				return
 			}
